@@ -28,7 +28,7 @@ def run(m):
         json.dump({"Replace": {"/repo/" + f: mf}}, open(ov, "w"))
         res = []
         for p in props:
-            if p not in avail:
+            if not os.path.isdir(os.path.join(ROOT, "checks", p.lower())):
                 res.append(p + ":no-check"); continue
             env = dict(os.environ, VERIF_EXTRA_OVERLAY=ov, VERIF_BUILD_TAG="." + mid, VERIF_OUTDIR=work)
             r = subprocess.run([os.path.join(ROOT, "run.sh"), p, tier], env=env, capture_output=True, text=True)
